@@ -9,6 +9,8 @@ into a Lean definition of type `Option <result>` (`none` = the exception Python 
 * `for v in xs: ...` / `for a, b in zip(xs, ys): ...`              ->  an auxiliary definition for the loop body and
                                                                        `List.foldl body (carried variables) xs`
 * `x is None` / `x is not None` on variables of an `Option` type -> `x.isNone` / `x.isSome`
+* `x.__class__ is y.__class__` / `type(x) is type(y)` (also `==`, `is not`, `!=`) on two elements -> the parameter
+  `sameClass x y` (when the Spec names one under `cmp["SameClass"]`)
 * expressions: names, integer constants, `[]`, `[e]`, `[e] * n`, `+`, `len`, `xs[0]`, `xs[1:]`, `xs[idx]`,
   `a == b`, `a != b` (element comparisons are parameters of the generated definition: for floats they are
   IEEE comparisons), `a or b` on integers (Python truthiness: `a if a != 0 else b`), and the numpy calls
@@ -80,6 +82,16 @@ def pyname_of(node):
         return node.id
     if isinstance(node, ast.Attribute) and isinstance(node.value, ast.Name) and node.value.id == "self":
         return "self." + node.attr
+    return None
+
+
+def class_of(node):
+    """`x.__class__` / `type(x)` -> the node of `x`, else None."""
+    if isinstance(node, ast.Attribute) and node.attr == "__class__":
+        return node.value
+    if isinstance(node, ast.Call) and isinstance(node.func, ast.Name) and node.func.id == "type" and len(node.args) == 1 \
+            and not node.keywords:
+        return node.args[0]
     return None
 
 
@@ -213,6 +225,16 @@ class Translator:
                 x = self.expr(n.left.args[0], scope)
                 self.pure(x)
                 return V("%s %s" % (sp.env[ast.unparse(right)][0], self.paren(x.term)), "Bool")
+            # `x.__class__ is y.__class__` / `type(x) is type(y)` (also `==`, and the negations) on two elements:
+            # "of the same class", a parameter of the definition like the element comparisons
+            ca, cb = class_of(n.left), class_of(right)
+            if ca is not None and cb is not None and isinstance(op, (ast.Is, ast.IsNot, ast.Eq, ast.NotEq)) and "SameClass" in sp.cmp:
+                a, b = self.expr(ca, scope), self.expr(cb, scope)
+                self.pure(a, b)
+                if not (a.ty == b.ty == sp.elem):
+                    raise Untranslatable("class comparison of %s with %s" % (a.ty, b.ty))
+                t = "%s %s %s" % (sp.cmp["SameClass"], self.paren(a.term), self.paren(b.term))
+                return V(t if isinstance(op, (ast.Is, ast.Eq)) else "!(%s)" % t, "Bool")
             # `x is None` / `x is not None` on an optional attribute
             if isinstance(op, (ast.Is, ast.IsNot)) and isinstance(right, ast.Constant) and right.value is None:
                 x = self.expr(n.left, scope)
